@@ -14,6 +14,8 @@ Not decided: rows obtained by pure-integer indexing / tuple unpacking / iteratio
 immutable elements (true for the rank-1 inputs the API documents).
 Added after the seeding rounds (DESIGN.md 6.6-6.8):
  CONFIG-FROZEN / RECOMPUTED (shared with C13): per-sample methods never re-tune the filter.
+Added after seeding rounds 5 and 6 and refactoring round 4 (DESIGN.md 6.10-6.12):
+ GLOBAL-WRITE / GLOBAL-RETURN  no in-place write into, and no hand-out of, module-level arrays.
 """
 import ast
 from sa.flow import Alias, ann_is_scalar
